@@ -14,7 +14,7 @@ for sid in sorted(mx):
     own = sid.split("-")[0]
     meta = json.load(open(os.path.join(VERIF, "seeded", sid, "meta.json")))
     summ = " ".join(str(meta.get("summary", "")).split()).replace("|", "/")[:150]
-    rules = ", ".join(r[own]["rules"]) if r[own]["exit"] == 1 else "**not reported**"
+    rules = ", ".join(r[own]["rules"]) if r[own]["exit"] == 1 else ("*undecided (analysis error, exit 2)*" if r[own]["exit"] == 2 else "**not reported**")
     if r[own]["exit"] != 1:
         missed.append(sid)
     also = ", ".join(p for p in sorted(r) if p != own and r[p]["exit"] == 1) or "—"
